@@ -267,6 +267,11 @@ func (r *FeatureLocal) CleanWriteApprovalCaches(ski string) {
 	r.muxResponseCB.Lock()
 	defer r.muxResponseCB.Unlock()
 
+	// stop the timers, they would send an error result to the removed device otherwise
+	for _, timer := range r.pendingWriteApprovals[ski] {
+		timer.Stop()
+	}
+
 	delete(r.pendingWriteApprovals, ski)
 	delete(r.writeApprovalReceived, ski)
 }
